@@ -393,7 +393,8 @@ class EngineExec:
                 nd = len(self.loop.timer_deadlines())
                 for k in range(min(nd, self.cfg.time_depth)):
                     acts.append(Action(f"time{k}", (lambda k=k: self.loop.fire_timers(k))))
-        if self.cfg.pair_time and self.cfg.allow_time and gates and self.loop.has_timers():
+        if self.cfg.pair_time and self.cfg.allow_time and gates and self.loop.has_timers() and (
+                self.cfg.time_filter is None or self.cfg.time_filter(h)):
             for g in gates:
                 def _gt(g: Gate = g) -> None:
                     g.fut.set_result(None)
